@@ -18,6 +18,9 @@ ST = f"{MULTI}:safe_terminate"
 GT = f"{MULTI}:Group.terminate"
 
 
+MK_QUICK = ("popen.chdir+nice", "via.plain", "socket.nice", "none.plain")
+
+
 class PROP(Prop):
     id = "C05"
     title = ("ghost-clock contracts on the terminate path: termkill settles its pair within timeout when the kill is prompt; safe_terminate returns within 3*timeout "
@@ -31,10 +34,18 @@ class PROP(Prop):
                f"grp-any::{GT}", f"grp-local::{GT}",
                f"io::{GIO}:Popen2IOMaster.wait", f"io::{GIO}:Popen2IOMaster.kill", f"io::{GIO}:ProxyIO._controll", f"io::{GIO}:ProxyIO.kill", f"io::{GIO}:ProxyIO.close_write",
                f"x::{MULTI}:Group.allocate_id",
-               f"x::{MULTI}:Group.__iter__"]     # terminate() walks the members while exit() unregisters them: the walk is over a snapshot (one round handles every member)
+               f"x::{MULTI}:Group._register",
+               f"x::{MULTI}:Group.__iter__"] + [     # terminate() walks the members while exit() unregisters them: the walk is over a snapshot
+        # makegateway (spec already an XSpec): on EVERY exit, a gateway whose interpreter was started and bootstrapped in this call is a member of the group; verified in 24
+        # pieces of the input domain (first truthy transport key x which of chdir/nice are given), all against the same postcondition
+        # quick tier: four pieces (every one contains the configuration step through env:); thorough tier: all 24
+        f"mk::{MULTI}:Group.makegateway#{p_}" for p_ in MK_QUICK]
+    targets_thorough = [f"mk::{MULTI}:Group.makegateway#{t}.{c}" for t in ("via", "popen", "ssh", "vagrant_ssh", "socket", "none") for c in ("plain", "chdir", "nice", "chdir+nice")
+                        if f"{t}.{c}" not in MK_QUICK]
     heavy = {f"grp-any::{GT}": 8, f"grp-local::{GT}": 8, f"{ST}.termkill": 2, f"{ST}#any": 2}
+    heavy.update({f"mk::{MULTI}:Group.makegateway#{t}.{c}": 6 for t in ("via", "popen", "ssh", "vagrant_ssh", "socket", "none") for c in ("plain", "chdir", "nice", "chdir+nice")})
     extra_worlds = {"gw": cg.declare_gateway_level, "grp-any": lambda w: cg.declare_group_terminate(w, "any"), "grp-local": lambda w: cg.declare_group_terminate(w, "local"),
-                    "io": cg.declare_transports, "x": cx.declare}
+                    "io": cg.declare_transports, "x": cx.declare, "mk": cx.declare_makegateway}
     assumptions = [
         "ghost clock: a wait with a numeric timeout t advances it by at most t; a wait without timeout is unbounded unless a stated readiness condition holds; non-blocking code costs epsilon, which is not counted",
         "WorkerPool (C09): spawn starts the task at once in its own thread (no size limit); Reply.get/waitfinish return when the task has finished, raise OSError after a numeric timeout, get re-raises the task's exception; "
@@ -53,7 +64,8 @@ class PROP(Prop):
     not_decided = ["groups with via= members: time bound and children accounting (the outer loop needs one round per via level; acyclicity of the via relation is by construction of makegateway, not proved); native scenarios only",
                    "wall-clock behaviour of the OS scheduler; eventlet/gevent initiators",
                    "a bootstrap that fails while the started program stays alive (see known finding C05-F5)",
-                   "concurrent makegateway calls with the same explicit id (both pass allocate_id; the loser's process is left to terminate(): its gateway was never registered)"]
+                   "concurrent makegateway calls with the same explicit id (both pass allocate_id; the loser's process is left to terminate(): its gateway was never registered): makegateway's contract is sequential",
+                   "makegateway with a spec given as text (or None): the conversion prefix is only exercised with an XSpec argument; keys that take a value are assumed to have one (precondition valued-keys)"]
 
     def setup(self, w):
         cg.declare_safe_terminate_loop(w)
